@@ -295,7 +295,9 @@ Fixpoint secidx_loop (fuel : nat) (root sec : cfg) (steps : list (nat * nat)) (n
                                (Some k, match gettsecidx o t with Some j => Z.of_nat j | None => (-1)%Z end, Some t, after', l)
                              else
                                let r := strtol t 0 in
-                               (Some k, match sl_rest r with [] => sl_val r | _ => (-1)%Z end, Some t, after', l)
+                               (Some k, match sl_rest r with
+                                        | [] => if (sl_val r <=? 4294967295)%Z then sl_val r else (-1)%Z
+                                        | _ => (-1)%Z end, Some t, after', l)
                          end
                    | [] => (Some k, 0%Z, None, name, len)
                    end
@@ -328,8 +330,12 @@ Fixpoint secidx_loop (fuel : nat) (root sec : cfg) (steps : list (nat * nat)) (n
             {| rs_opt := None; rs_index := index'; rs_diags := d |}
         | Some (k, v, s) =>
             let name2 := skipn len1 name1 in
-            let name3 := skipn (strspn name2 is_bar) name2 in
-            secidx_loop fuel' root s ((k, v) :: steps) name3 want_index (Some (rev steps, k)) index'
+            let nbars := strspn name2 is_bar in
+            let name3 := skipn nbars name2 in
+            let garbage := match name2 with c :: _ => negb (is_bar c) | [] => false end in
+            let trailing := match name3 with [] => negb (Nat.eqb nbars 0) | _ => false end in
+            if garbage || trailing then {| rs_opt := None; rs_index := index'; rs_diags := [] |}
+            else secidx_loop fuel' root s ((k, v) :: steps) name3 want_index (Some (rev steps, k)) index'
         end
     end
   end.
